@@ -27,7 +27,7 @@ import (
 )
 
 type c17Step struct {
-	Kind string `json:"kind"` // dial null idle close stop closenfs unexport
+	Kind string `json:"kind"` // dial null idle close refuse stop closenfs unexport
 	N    int    `json:"n"`
 }
 
@@ -39,10 +39,10 @@ type c17Case struct {
 }
 
 func genC17(t *rapid.T) c17Case {
-	c := c17Case{MaxConn: rapid.IntRange(1, 6).Draw(t, "max"), IdleMs: pick(t, "idle", 100, 150, 200, 300), Via: pick(t, "via", "listen", "listen", "export")}
+	c := c17Case{MaxConn: rapid.IntRange(1, 6).Draw(t, "max"), IdleMs: pick(t, "idle", 100, 150, 200, 300, 60000, 60000), Via: pick(t, "via", "listen", "listen", "export")}
 	n := rapid.IntRange(2, 9).Draw(t, "n")
 	for i := 0; i < n; i++ {
-		st := c17Step{Kind: pick(t, "kind", "dial", "dial", "dial", "null", "close", "close", "idle", "stop", "closenfs", "unexport"), N: rapid.IntRange(1, 8).Draw(t, "k")}
+		st := c17Step{Kind: pick(t, "kind", "dial", "dial", "dial", "null", "close", "close", "idle", "refuse", "stop", "closenfs", "unexport"), N: rapid.IntRange(1, 8).Draw(t, "k")}
 		c.Steps = append(c.Steps, st)
 	}
 	c.Steps = append(c.Steps, c17Step{Kind: pick(t, "final", "stop", "closenfs", "unexport", "stop")})
@@ -154,7 +154,7 @@ func runC17(tb stat.TB, c c17Case) {
 	}
 	touch := time.Now() // last time any open connection was used
 	_ = touch
-	_ = openServed
+	refusals := false
 	// populate handles and caches so that Close/Unexport have something to release
 	if cl, err := net.DialTimeout("tcp", addr, 2*time.Second); err == nil {
 		cl.SetDeadline(time.Now().Add(3 * time.Second))
@@ -288,8 +288,47 @@ func runC17(tb stat.TB, c c17Case) {
 					i++
 				}
 			}
+		case "refuse":
+			// connections from an address outside the allow-list: closed unserved, and
+			// once they have ended they are no longer counted
+			if stopped || nfsClosed {
+				continue
+			}
+			o := n.GetExportOptions()
+			o.AllowedIPs = []string{"10.9.9.9"}
+			if err := n.UpdateExportOptions(o); err != nil {
+				tb.Fatalf("harness: %v", err)
+			}
+			for i := 0; i < st.N; i++ {
+				cl, err := net.DialTimeout("tcp", addr, 2*time.Second)
+				if err != nil {
+					continue
+				}
+				c17SawEOF(cl, 2*time.Second)
+				cl.Close()
+			}
+			o.AllowedIPs = nil
+			if err := n.UpdateExportOptions(o); err != nil {
+				tb.Fatalf("harness: %v", err)
+			}
+			refusals = true
+			if c.IdleMs >= 60000 {
+				nt = true
+				deadline := time.Now().Add(3 * time.Second)
+				for {
+					cnt, tracked := srv.VerifConnCounts()
+					if cnt <= openServed() && tracked <= openServed() {
+						break
+					}
+					if time.Now().After(deadline) {
+						viol("ended-connections-still-counted", "step#%d: %d connection(s) from an address outside AllowedIPs were closed by the server, yet connCount=%d tracked=%d with %d client connection(s) open", si, st.N, cnt, tracked, openServed())
+						break
+					}
+					time.Sleep(20 * time.Millisecond)
+				}
+			}
 		case "idle":
-			if stopped {
+			if stopped || c.IdleMs >= 60000 {
 				continue
 			}
 			time.Sleep(2*idle + 400*time.Millisecond)
@@ -431,7 +470,7 @@ func runC17(tb stat.TB, c c17Case) {
 			time.Sleep(20 * time.Millisecond)
 		}
 	}
-	stat.Case(c, nt, "via_"+c.Via)
+	stat.Case(c, nt, "via_"+c.Via, fmt.Sprintf("refusals_%v", refusals))
 }
 
 var propC17 = defProp("C17", "TestC17", genC17, runC17)
